@@ -10,6 +10,7 @@ import (
 	"github.com/markkurossi/mpc/ot"
 	"github.com/markkurossi/mpc/sha2pc"
 
+	"verifharness/internal/refc"
 	"verifharness/internal/vrt"
 )
 
@@ -176,7 +177,19 @@ func deltaOf(cs *vrt.Case, sent [][]ot.Wire, mode string) (ot.Label, bool) {
 }
 
 func c04Whole(cs *vrt.Case, r *vrt.Rng) {
-	c, what := twoPartyCircuit(cs, r, cs.Idx/6, vrt.Pick(r, []int{10, 80, 400}))
+	var c *circuit.Circuit
+	var what string
+	if (cs.Idx/6)%8 == 5 {
+		// a long session: more than 2^16 gate tweaks, and input wires that
+		// feed AND gates all over the circuit (per-gate uniqueness of the
+		// hash tweak matters only here)
+		sh := refc.Shape{Args: []int{r.Range(2, 6), r.Range(2, 6)}, Outs: []int{r.Range(1, 8)}, Gates: r.Range(48000, 90000), Kind: 4,
+			Ops: []circuit.Operation{circuit.AND, circuit.AND, circuit.AND, circuit.XOR}}
+		c, what = refc.Gen(r, sh), fmt.Sprintf("long hot-input circuit %v gates=%d", sh.Args, sh.Gates)
+		cs.Count("long_sessions_over_65536_tweaks", 1)
+	} else {
+		c, what = twoPartyCircuit(cs, r, cs.Idx/6, vrt.Pick(r, []int{10, 80, 400}))
+	}
 	if c == nil {
 		return
 	}
@@ -226,13 +239,45 @@ func main(a uint32, b uint32) (uint32, bool) {
 	return s ^ (a << 3), a < b
 }
 `, func(r *vrt.Rng) []string { return []string{fmt.Sprint(r.U64() >> 32)} }, func(r *vrt.Rng) []string { return []string{fmt.Sprint(r.U64() >> 32)} }},
+	// a long streaming session: 2*700*64 AND gates (more than 2^16 gate
+	// tweaks), every one fed by one of 128 long-lived wires
+	{`package main
+func main(g [702]uint64, e uint64) uint64 {
+	a := g[700] ^ e
+	b := g[701]
+	var s uint64
+	for i := 0; i < 700; i++ {
+		s = s ^ (a & g[i]) ^ (b & (g[i] >> 1))
+	}
+	return s
+}
+`, func(r *vrt.Rng) []string {
+		v := "0x"
+		for i := 0; i < 702; i++ {
+			v += fmt.Sprintf("%016x", r.U64())
+		}
+		return []string{v}
+	}, func(r *vrt.Rng) []string { return []string{fmt.Sprint(r.U64())} }},
+}
+
+// clipStrings shortens very long input literals for reports (the case is
+// re-derived from (seed, idx) on replay).
+func clipStrings(in []string) []string {
+	out := make([]string, len(in))
+	for i, s := range in {
+		if len(s) > 160 {
+			s = fmt.Sprintf("%s...(%d chars, hash %x)", s[:160], len(s), vrt.HashBytes([]byte(s)))
+		}
+		out[i] = s
+	}
+	return out
 }
 
 func c04Stream(cs *vrt.Case, r *vrt.Rng) {
 	p := c04StreamPrograms[(cs.Idx/6)%len(c04StreamPrograms)]
 	gIn, eIn := p.gIn(r), p.eIn(r)
 	o := runStream(r, p.src, nil, gIn, eIn, yaoOpts{ot: (cs.Idx / 6) % 3, kind: 2, record: true, stallWin: 30 * time.Second})
-	desc := map[string]any{"mode": "streaming", "program": (cs.Idx / 6) % len(c04StreamPrograms), "ot": o.otName, "g": gIn, "e": eIn}
+	desc := map[string]any{"mode": "streaming", "program": (cs.Idx / 6) % len(c04StreamPrograms), "ot": o.otName, "g": clipStrings(gIn), "e": clipStrings(eIn)}
 	cs.SetSample(desc)
 	if pi := firstPanic(o.g, o.e); pi != nil || o.g.err != nil || o.e.err != nil {
 		cs.Inconc(fmt.Sprintf("streaming session did not complete (C05's business): %v %v %v", pi, o.g.err, o.e.err))
